@@ -220,12 +220,16 @@ def procFlush (cfg : Cfg α β) (s : St σ) (inb : Option (InBuf β)) (ilen0 : N
   { s with flushing := s.flushing ||
       (procIlen cfg inb ilen0 wantIdone olen == (if inb.isNone then 0 else ilen0) && (flushReq || inb.isNone)) }
 
+/-- `soxr_process` without buffers (commit ab95331): `if (p->flushing && !p->error && p->resamplers) for (u…) resampler_flush(…)` -/
+def flushAll (E : Engine σ α) (s : St σ) : St σ :=
+  if s.flushing = true ∧ s.error.isSome = false then { s with eng := s.eng.map E.flush } else s
+
 /-- `soxr_process`.  `flushReq` = the caller passed `~ilen0`; `wantIdone` = `idone0 != NULL`. -/
 def process (E : Engine σ α) (cfg : Cfg α β) (s : St σ) (inb : Option (InBuf β)) (ilen0 : Nat)
     (flushReq wantIdone outPresent : Bool) (olen : Nat) (replies : List (Nat → FnReply β)) : ProcRes σ β :=
   let ilen := procIlen cfg inb ilen0 wantIdone olen
   let s0 : St σ := procFlush cfg s inb ilen0 flushReq wantIdone olen
-  if outPresent = false ∧ inb.isNone then { st := s0, idone := ilen, odone := 0, out := blank cfg.ch }
+  if outPresent = false ∧ inb.isNone then { st := flushAll E s0, idone := ilen, odone := 0, out := blank cfg.ch }
   else if s0.error.isSome then { st := s0, idone := 0, odone := 0, out := blank cfg.ch }   -- sticky on both paths (27b24c1)
   else if cfg.isplit ∧ cfg.osplit then
     let r := splitLoop E cfg s0.flushing inb ilen olen 0 s0.eng s0.seed
